@@ -346,7 +346,7 @@ def finish(ctx, level_text=None):
         v = real[0]
         h = hashlib.sha1(json.dumps(v, sort_keys=True, default=str).encode()).hexdigest()[:10]
         path = os.path.join(VERIF, 'replay', '%s-%s.json' % (ctx.pid, h))
-        json.dump({'property': ctx.pid, 'violation': v, 'all': real[:20], 'broken': ctx.broken,
+        json.dump({'property': ctx.pid, 'violation': v, 'all': real[:20], 'broken': ctx.broken, 'broken_cases': ctx.notes.get('broken_cases', [])[:5],
                    'replay_cmd': './check %s --replay %s' % (ctx.pid, path)}, open(path, 'w'), indent=1, default=str)
         print('VIOLATION property=%s replay=%s' % (ctx.pid, path))
         rc = 1
